@@ -59,3 +59,28 @@ def parse(line, units):
             return None
         comps[u] = abs(v)
     return comps, minus, lead
+
+
+def diff_events(rep, tool, pts, with_time, units, max_span=None):
+    """DiffTrace events for all ordered pairs of pts under one format (ddiff A B and ddiff B A); earlier day-of-month <= 28 for month/year units"""
+    res, bad = run_matrix(tool, pts, with_time, units)
+    for i, n, rc in bad:
+        rep.disagree("ddiff %s: wrong number of output lines" % "".join(units), {"A": text(pts[i], with_time), "lines": n, "rc": rc})
+    out = []
+    for i in range(len(pts)):
+        for j in range(i + 1, len(pts)):
+            if (i, j) not in res or (j, i) not in res:
+                continue
+            a, bb = pts[i], pts[j]
+            earlier = a if (a["ldn"], a["sod"]) <= (bb["ldn"], bb["sod"]) else bb
+            if ("m" in units or "Y" in units) and earlier["d"] > 28:
+                continue
+            if max_span is not None and abs(a["ldn"] - bb["ldn"]) > max_span:
+                continue
+            p1, p2 = parse(res[(i, j)], units), parse(res[(j, i)], units)
+            dead = {u: -1 for u in UNITS}
+            out.append([{"e": "Diff", "cmd": "ddiff %s %s -f '%s'" % (text(a, with_time), text(bb, with_time), fmt_of(units)),
+                         "fmt": "".join(units), "cal": "ywd" if ("Y" in units and "w" in units and "m" not in units) else "greg", "a": a, "b": bb,
+                         "comps": p1[0] if p1 else dead, "neg": bool(p1 and p1[2]), "out": res[(i, j)],
+                         "rcomps": p2[0] if p2 else dead, "rneg": bool(p2 and p2[2]), "rout": res[(j, i)]}])
+    return out, len(pts)
